@@ -41,7 +41,15 @@ func runSolver(ctx context.Context, s solverSpec, file string, timeoutS int) (an
 	cmd := exec.CommandContext(ctx, args[0], args[1:]...)
 	b, _ := cmd.CombinedOutput()
 	out = string(b)
-	first := strings.TrimSpace(strings.SplitN(out, "\n", 2)[0])
+	first := ""
+	for _, l := range strings.Split(out, "\n") {
+		l = strings.TrimSpace(l)
+		if l == "" || strings.HasPrefix(l, "WARNING") {
+			continue
+		}
+		first = l
+		break
+	}
 	switch first {
 	case "sat", "unsat", "unknown":
 		return first, out
